@@ -147,6 +147,15 @@ class MutationAnalysis:
 
     def _stmt(self, st, env, fi, s):
         if isinstance(st, ast.Assign):
+            # a, b = x, y binds element-wise (a never refers to y)
+            if isinstance(st.value, (ast.Tuple, ast.List)) and all(
+                    isinstance(t, (ast.Tuple, ast.List)) and len(t.elts) == len(st.value.elts)
+                    and not any(isinstance(e, ast.Starred) for e in list(t.elts) + list(st.value.elts)) for t in st.targets):
+                vals = [self._ev(e, env, fi, s) for e in st.value.elts]
+                for t in st.targets:
+                    for te, v in zip(t.elts, vals):
+                        self._assign(te, v, env, fi, s, st)
+                return
             v = self._ev(st.value, env, fi, s)
             for t in st.targets:
                 self._assign(t, v, env, fi, s, st)
